@@ -119,6 +119,29 @@ func runC20(c *Ctx) {
 			continue
 		}
 		bufObj := info.Uses[id]
+		// data := buf[:n]: the buffer is buf (what n may be is the fill discipline, R20.1)
+		{
+			var from types.Object
+			ndef := 0
+			ast.Inspect(cs.In.Body(), func(n ast.Node) bool {
+				if as, ok := n.(*ast.AssignStmt); ok && len(as.Lhs) == len(as.Rhs) {
+					for i, l := range as.Lhs {
+						if lid, isId := l.(*ast.Ident); isId && info.ObjectOf(lid) == bufObj {
+							ndef++
+							if se, isS := unparen(as.Rhs[i]).(*ast.SliceExpr); isS {
+								if bid, isB := unparen(se.X).(*ast.Ident); isB {
+									from = info.Uses[bid]
+								}
+							}
+						}
+					}
+				}
+				return true
+			})
+			if ndef == 1 && from != nil {
+				bufObj = from
+			}
+		}
 		// filled: by a fill API (R20.1 decides the prefix), or by make(len(src)) + copy(buf, src) with src a parameter
 		filled := false
 		for _, s := range sites {
@@ -187,11 +210,37 @@ func isFreshAt(eng *FactEngine, fs *FuncSrc, at ast.Node, e ast.Expr) bool {
 	if isFresh(t) {
 		return true
 	}
-	for _, f := range st.Facts() {
-		if f.Op == "eq" && f.Pos && f.B != nil {
-			if f.A.String() == t.String() && isFresh(f.B) || f.B.String() == t.String() && isFresh(f.A) {
+	// through copies, and through slicing a fresh buffer (the slice shares only that storage)
+	seen := map[string]bool{t.String(): true}
+	work := []*Term{t}
+	for depth := 0; depth < 5 && len(work) > 0; depth++ {
+		var next []*Term
+		for _, w := range work {
+			if isFresh(w) {
 				return true
 			}
+			if w.K == 'o' && strings.HasPrefix(w.Name, "slice") && len(w.Args) > 0 && !seen[w.Args[0].String()] {
+				seen[w.Args[0].String()] = true
+				next = append(next, w.Args[0])
+			}
+			ws := w.String()
+			for _, f := range st.Facts() {
+				if f.Op != "eq" || !f.Pos || f.B == nil {
+					continue
+				}
+				for _, pr := range [][2]*Term{{f.A, f.B}, {f.B, f.A}} {
+					if pr[0].String() == ws && !seen[pr[1].String()] {
+						seen[pr[1].String()] = true
+						next = append(next, pr[1])
+					}
+				}
+			}
+		}
+		work = next
+	}
+	for _, w := range work {
+		if isFresh(w) {
+			return true
 		}
 	}
 	return false
@@ -630,7 +679,12 @@ func checkRecoveryRange(c *Ctx, rule string) {
 		return
 	}
 	// argument: last + i
-	be, ok := unparen(fc.Args[1]).(*ast.BinaryExpr)
+	if len(fc.Args) == 0 {
+		c.Bad(rule, "recovery call", fc.Pos(), "fetch is called without a sequence number")
+		return
+	}
+	// (the sequence number is the last argument, whether the track is a parameter or the receiver)
+	be, ok := unparen(fc.Args[len(fc.Args)-1]).(*ast.BinaryExpr)
 	var lastObj, iObj types.Object
 	if ok && be.Op == token.ADD {
 		if a, ok := unparen(be.X).(*ast.Ident); ok {
